@@ -7,7 +7,8 @@ import random
 from typing import Any
 
 from streamflow.core.workflow import Status, Token
-from streamflow.workflow.step import GatherStep, ScatterStep
+from streamflow.workflow.executor import StreamFlowExecutor
+from streamflow.workflow.step import GatherStep, ScatterStep, Transformer
 from streamflow.workflow.token import ListToken, ObjectToken, TerminationToken
 
 from sfv.framework import Ctx, Property
@@ -87,6 +88,15 @@ def rand_nested(rng: random.Random, levels: int, sizes: list[int]) -> Any:
         return rand_leaf(rng, rng.randint(0, 50))
     n = rng.choice(sizes)
     return [rand_nested(rng, levels - 1, sizes) for _ in range(n)]
+
+
+class _Map(Transformer):
+    """a real element-wise step (streamflow Transformer): tag preserved, value mapped by `f`"""
+    f = "id"
+
+    async def transform(self, inputs):
+        (name, tok), = inputs.items()
+        return {name: apply_f(self.f, tok)}
 
 
 # ------------------------------------------------------------------------------------------------
@@ -295,6 +305,13 @@ class C01(Property):
             for _ in range(16 if wide else 5):
                 yield {"op": "nested", "levels": levels, "value": rand_nested(rng, levels, [1, 2, 3, 11] if levels == 2 else [1, 2, 4]),
                        "tag": "0", "f": "id", "oseed": rng.randrange(1 << 30), "imposed": True, "single_gather": True}
+        # the whole pipeline run by the real executor: scatter^levels -> Transformer -> gather^levels, all steps concurrent
+        for i in range(40 if wide else 12):
+            levels = rng.choice([1, 1, 2, 3])
+            sizes = {1: BOUNDARY + [3, 20, 40], 2: [0, 1, 2, 3, 11, 12], 3: [0, 1, 2, 3, 11]}[levels]
+            yield {"op": "pipeline", "levels": levels, "inputs": [{"tag": t, "value": rand_nested(rng, levels, sizes)}
+                                                                for t in rng.sample(["0", "1", "2", "10"], rng.randint(1, 3))],
+                   "f": rng.choice(["id", "wrap", "str"]), "oseed": rng.randrange(1 << 30)}
         # incomplete streams: the forced-gathering branch (the property's premise fails; model vs code only)
         for _ in range(60 if wide else 20):
             n = rng.choice([0, 1, 2, 3, 11])
@@ -369,6 +386,8 @@ class C01(Property):
                 self._monitor(ctx, case, out, [expect_tree(case["f"], case["value"], levels, case["tag"])])
             ctx.case({"case": _brief(case)}, ("nested", levels, case["single_gather"], repr(case["value"])[:200], case["oseed"]),
                      f"nested-{levels}" + ("-single-gather" if case["single_gather"] else ""))
+        elif op == "pipeline":
+            await self._pipeline(ctx, rig, case)
         elif op == "partial":
             n = case["n"]
             elems = [Token(value=i, tag=f"0.{i}") for i in range(n)]
@@ -384,6 +403,65 @@ class C01(Property):
             ctx.case({"case": case}, ("partial", n, case["drop"], case["te"], case["ts"], case["oseed"]), "partial")
         else:
             raise ValueError(op)
+
+    # --------------------------------------------------------------------------------------------
+    async def _pipeline(self, ctx: Ctx, rig: Rig, case: dict) -> None:
+        """ScatterStep^levels -> Transformer(f) -> GatherStep^levels (each gather wired to the size port of its scatter, as the CWL
+        translator does), every step run concurrently by the real StreamFlowExecutor under the shuffling event loop"""
+        levels = case["levels"]
+        wf = rig._wf()
+        p_in = wf.create_port()
+        cur, size_ports = p_in, []
+        for lv in range(levels):
+            sc = wf.create_step(cls=ScatterStep, name=f"/s{lv}/x-scatter")
+            sc.add_input_port("x", cur)
+            cur = wf.create_port()
+            sc.add_output_port("x", cur)
+            size_ports.append(sc.get_size_port())
+        m = wf.create_step(cls=_Map, name="/map")
+        m.f = case["f"]
+        m.add_input_port("x", cur)
+        cur = wf.create_port()
+        m.add_output_port("x", cur)
+        gathers = []
+        for lv in reversed(range(levels)):
+            g = wf.create_step(cls=GatherStep, name=f"/s{lv}/x-gather", size_port=size_ports[lv], depth=1)
+            g.add_input_port("x", cur)
+            cur = wf.create_port()
+            g.add_output_port("x", cur)
+            gathers.append(g)
+        await wf.save(rig.context.database)
+        inputs = [build_token(i["value"], levels, i["tag"]) for i in case["inputs"]]
+        await sd.save_tokens(rig.context, p_in, inputs)
+        for t in inputs:
+            p_in.put(t)
+        p_in.put(TerminationToken())
+        run = asyncio.create_task(StreamFlowExecutor(wf).run())
+        _, pending = await asyncio.wait([run], timeout=60)
+        if pending:
+            live = sorted(st.name for st in wf.steps.values() if not st.terminated)
+            run.cancel()
+            try:
+                await run
+            except BaseException:  # noqa: BLE001
+                pass
+            raise sd.StepHang(f"pipeline did not terminate within 60 s; steps still running: {live}")
+        run.result()
+        out = list(cur.token_list)
+        self._monitor(ctx, case, out, [expect_tree(case["f"], i["value"], levels, i["tag"]) for i in case["inputs"]], check_status=False)
+        # every gather of the pipeline against the model: its two input logs in a canonical interleaving, outputs compared per key
+        for g in gathers:
+            gin, gsz = g.get_input_port(), g.get_size_port()
+            events = [("e", t) for t in gin.token_list if not isinstance(t, TerminationToken)] + \
+                     [("s", t) for t in gsz.token_list if not isinstance(t, TerminationToken)] + \
+                     [("te", next(t.value.name for t in gin.token_list if isinstance(t, TerminationToken))),
+                      ("ts", next(t.value.name for t in gsz.token_list if isinstance(t, TerminationToken)))]
+            ids: dict = {}
+            line = lean_gather_line(1, events, ids)
+            self._lines.append(line)
+            self._expect.append((render_real_out(list(g.get_output_port().token_list), ids), "sets", dict(case, stage=g.name, line=line[:300])))
+        ctx.case({"case": _brief(case), "out": [sd.untoken(t) for t in out][:2]},
+                 ("pipeline", levels, repr(case["inputs"])[:300], case["oseed"]), f"pipeline-{levels}")
 
     # --------------------------------------------------------------------------------------------
     def _check_scatter(self, ctx: Ctx, case: dict, inputs: list[Token], elems: list[Token], sizes: list[Token]) -> None:
@@ -406,7 +484,7 @@ class C01(Property):
             real_line = (",".join(f"{tg}:{i}" for i, tg in enumerate(mine)) or "-") + f"|size={t.tag}:{msz[0] if msz else '?'}"
             self._expect.append((real_line, "exact", dict(_brief(case), stage="scatter", input=t.tag)))
 
-    def _monitor(self, ctx: Ctx, case: dict, out: list[Token], expected: list) -> None:
+    def _monitor(self, ctx: Ctx, case: dict, out: list[Token], expected: list, check_status: bool = True) -> None:
         """the property: exactly one list per key, original tag, original values in original order, then termination"""
         lists = [sd.untoken(t) for t in out if not isinstance(t, TerminationToken)]
         if not out or not isinstance(out[-1], TerminationToken) or sum(isinstance(t, TerminationToken) for t in out) != 1:
@@ -429,7 +507,9 @@ class C01(Property):
                     ctx.fail("gather:wrong-content", f"list {exp[1]}: got {g!r:.300}, expected {exp!r:.300}", case)
         if by_tag:
             ctx.fail("gather:unexpected-output", f"list tokens with unexpected tags {sorted(by_tag)}", case)
-        if out[-1].value != Status.COMPLETED:
+        # (in a whole pipeline an empty list makes the upstream steps SKIPPED and the gather inherits that status although it
+        #  emits the — correct — empty list; the status is only checked where the harness feeds COMPLETED termination tokens)
+        if check_status and out[-1].value != Status.COMPLETED:
             ctx.fail("gather:status", f"termination status {out[-1].value.name} on a complete stream", case)
 
     # --------------------------------------------------------------------------------------------
